@@ -37,10 +37,11 @@ RULE = ("(template, substrate, direction, hydrogen mode) as in C03 (centre / ful
         "at least one rewriting; distinct = distinct (pair, variant list)")
 EXHAUSTIVE = {"quick": False, "thorough": False}
 EXPLANATION = ("Theorems about the composed pipeline model (rule preparation -> matches by strategy -> pruning by rule automorphisms -> "
-               "glue -> hydrogen stage): every stage commutes literally with renumbering of substrate and template (no tie-break looks at a "
-               "node id), BACKTRACK = COMPONENT when non-empty, pruning loses no class of matches. Correspondence: per writing and strategy, "
-               "match counts and the multiset of glued ITS graphs are compared with the implementation before RDKit serialisation; the "
-               "metamorphic oracle compares the sets of standardised reactions across writings, strategies and repeated calls.")
+               "glue -> hydrogen stage): literal equivariance of every stage under renumbering (all strategies); set-level invariance of the "
+               "glued graphs under any rewriting (exhaustive strategy); comp <= all, BACKTRACK = COMPONENT when non-empty; pruning loses no "
+               "class. Correspondence: per writing and strategy, match counts and the multiset of glued ITS graphs are compared with the "
+               "implementation before RDKit serialisation, theorem premises (side_okb) evaluated per writing; the metamorphic oracle "
+               "compares the sets of standardised reactions across writings, strategies and repeated calls.")
 TRUSTED_BASE = [
     "Coq 8.16.1 kernel + vm_compute (no native_compute)",
     "hand-written models coq/model/C05_Model.v (composition, lazy enumerator proved equal to lib/Mono.v) over C03_Model.v (rule preparation, "
@@ -60,25 +61,30 @@ ASSUMPTIONS = ["templates have typesGH 5-tuples on every node, no wildcard atoms
 TESTED_NOT_PROVED = [
     "RDKit half: substrate parsing and result serialisation/standardisation are invariant under rewriting (metamorphic oracle on the "
     "implementation: equal sets of Standardize.fit strings across writings, strategies, repeated calls)",
-    "component-aware results are a subset of the exhaustive ones in general (proved only: BACKTRACK = COMPONENT when non-empty, COMPONENT = ALL "
-    "when the substrate has fewer components; the general inclusion is compared per run at match-count, glued-graph and string level)",
-    "invariance under changes of the INSERTION ORDER of nodes/edges (the proof covers renumbering with the order kept; every rewriting the "
-    "generators produce also permutes the order and is compared with the implementation)",
-    "explicit-hydrogen path (pattern keeps X-H bonds: re-matching on the hydrogen-expanded substrate) and the _explicit_h stage: modelled and "
-    "compared on every run, not covered by the invariance theorem (new hydrogen ids are allocated in numeric order)",
+    "COMPONENT/BACKTRACK under changes of the INSERTION ORDER (proved: renumbering with the order kept, every strategy; any re-ordering, "
+    "exhaustive strategy; comp <= all at match level); every rewriting the generators produce also permutes the order and is compared "
+    "with the implementation for all three strategies",
+    "explicit-hydrogen path (pattern keeps X-H bonds: re-matching on the hydrogen-expanded substrate), the _explicit_h stage and rule "
+    "preparation in the default mode: modelled and compared on every run, not covered by the invariance theorems (new hydrogen ids and "
+    "h_pairs ids are allocated in numeric order: results are isomorphic, not literally renumbered)",
+    "the two writings handed to the model are the same graph up to numbering and order (premise same_graph of the set-level theorem): "
+    "the oracle checks the parsed hosts for isomorphism; the other premises (side_okb) are evaluated inside the model on every writing",
     "repeated calls on the same reactor object / same template object return the same list (oracle; the model is a pure function)",
 ]
 LEVEL_TEXT = ("Machine-checked proof (Coq) over an executable model of the whole graph-level rule-application pipeline (SynRule preparation, "
-              "search strategies ALL/COMPONENT/BACKTRACK over a verified monomorphism enumerator, pruning by rule automorphisms, gluing): "
-              "for every substrate, rule, strategy and every injective renumbering of substrate and template that keeps the insertion order, "
-              "raw matches, kept matches, glued ITS graphs and the result list of the renumbered inputs are exactly the renumbered ones "
-              "(patterns without explicit X-H bonds, no _explicit_h stage; end to end from the template in implicit-hydrogen mode); "
-              "BACKTRACK returns the COMPONENT result whenever that is non-empty; pruning returns a sub-list and loses no class of matches. "
-              "The model is tied to the Python code on every run by comparing, per writing and strategy, match counts and the multiset of "
-              "glued ITS graphs; the RDKit half (parsing, canonical output), insertion-order changes, the explicit-hydrogen path and "
-              "comp <= all are covered by the correspondence and a metamorphic oracle, not by proof.")
-LEVEL_NOTE = ("Trusted: Coq kernel + vm_compute; the models and encoders; VF2 and RDKit contracts (monitored, not proved). The full clause "
-              "(set of distinct reactions invariant under arbitrary rewriting) is stated in coq/props/C05.v as a comment next to the partial theorems.")
+              "search strategies ALL/COMPONENT/BACKTRACK over a verified monomorphism enumerator, pruning by rule automorphisms, gluing). "
+              "Proved for all inputs: (1) every stage and the result list commute literally with any injective renumbering of substrate "
+              "and template, for every strategy (end to end from the template in implicit-hydrogen mode); (2) for the exhaustive strategy "
+              "the SET of glued ITS graphs is invariant under arbitrary rewriting of both inputs (renumbering plus any re-ordering of "
+              "atoms, bonds and bond orientation): the glue depends only on the graphs as functions and the match as a set of pairs, "
+              "matches related by a rule automorphism glue to the same ITS, pruning keeps one match of every class; (3) every "
+              "component-aware match is an exhaustive match and BACKTRACK returns the COMPONENT result whenever that is non-empty. "
+              "Scope of (1)-(2): patterns without explicit X-H bonds, before the _explicit_h stage. The model is tied to the Python code on "
+              "every run by comparing, per writing and strategy, match counts and the multiset of glued ITS graphs, and the theorems' "
+              "premises are evaluated on every writing; the RDKit half (parsing, canonical output), COMPONENT/BACKTRACK under re-ordering "
+              "and the explicit-hydrogen path are covered by the correspondence and a metamorphic oracle, not by proof.")
+LEVEL_NOTE = ("Trusted: Coq kernel + vm_compute; the models and encoders; VF2 and RDKit contracts (monitored, not proved). Imports, read-only: "
+              "C03 glue lemmas (proof/C03_Proof.v), C06 strategy specification (proof/C06_*.v), C11 pruning completeness (proof/C11_Dedup.v).")
 TECHNIQUE = "Coq proof about an executable Gallina model + per-run correspondence (vm_compute vs implementation) + metamorphic property oracle"
 DESIGN_REF = "DESIGN.md section 5 C05, section 7 row 17; notes/C05.md"
 
